@@ -187,7 +187,10 @@ class SysSim(Engine):
         ops = [{"op": "fill", "vseed": rng.randint(0, 10 ** 6)}]
         for _ in range(rng.randint(1, 5)):
             kind = rng.weighted([("to_dict", 3), ("pickle", 2), ("flows_csv", 3), ("stocks_csv", 3), ("to_dfs", 1)])
-            op = {"op": kind, "type": rng.choice(["numpy", "pandas"]), "with_io": rng.chance(0.5), "dir": rng.choice(["new", "existing", "nested"])}
+            if rng.chance(0.3):
+                ops.append({"op": "fill", "vseed": rng.randint(0, 10 ** 6)})
+            op = {"op": kind, "type": rng.choice(["numpy", "pandas"]), "with_io": rng.chance(0.5), "dir": rng.choice(["new", "existing", "nested"]),
+                  "reuse": rng.chance(0.4)}
             if kind in ("pickle", "flows_csv", "stocks_csv") and rng.chance(0.35):
                 op["fault"] = rng.choice([
                     {"kind": "open_fail", "nth": rng.randint(1, 4), "errno": rng.choice(["EACCES", "ENOSPC", "EIO"])},
@@ -360,6 +363,17 @@ class SysSim(Engine):
             raise Violation("build-succeeds", f"building a well-formed system through path '{world['build']['path']}' "
                                               f"(sheets named: {world['build']['sheets']}) raised {outcome[1]}", cls="build-succeeds:" + world["build"]["path"], **tags)
         self._compare_system(st, world, sys_, tags)
+        # the same definition objects are used again (another scenario, another naming function): same answer
+        world2 = _copy.deepcopy(world)
+        if world["build"]["path"] == "direct":
+            world2["naming"] = {"arrow": "ids", "ids": "no_spaces", "no_spaces": "arrow"}[world["naming"]]
+        self._cnt(st, "rebuild-from-same-definitions")
+        try:
+            sys2, _ = build_system(world2, st.tmp, (), definition=definition)
+        except Exception as e:  # noqa
+            raise Violation("rebuild-from-same-definitions", f"building a second system from the same definition objects raised {exc_class(e)}",
+                            cls="rebuild-from-same-definitions", **tags)
+        self._compare_system(st, world2, sys2, dict(tags, rebuild=True))
 
     def _compare_system(self, st, world, sys_, tags):
         def bad(clause, msg, **kw):
@@ -721,7 +735,14 @@ class SysSim(Engine):
         fault = op.get("fault")
         tags = dict(op=kind, fault=None if not fault else fault["kind"], zero_d=any(len(f["dims"]) == 0 for f in world["flows"]),
                     form=op.get("type") if kind == "to_dict" else kind, no_stocks=not world["stocks"])
-        fired, out, result, target = self._export(st, op, fault)
+        last = getattr(st, "last_target", {})
+        reuse = last.get(kind) if op.get("reuse") else None
+        if reuse:
+            self._probe(st, "export_into_location_of_an_earlier_export")
+        st.pre_listing = set(os.listdir(reuse)) if (reuse and os.path.isdir(reuse)) else set()
+        fired, out, result, target = self._export(st, op, fault, target=reuse)
+        last[kind] = target
+        st.last_target = last
         st.log.add("outcome", outcome=out[0], exc=out[1], fired=sorted(fired))
         st.sig.append((kind, op.get("type") if kind == "to_dict" else None, op.get("with_io"), op.get("dir"), tags["fault"],
                        bool(fired), out[0], len(world["flows"]), len(world["stocks"]), tags["zero_d"]))
@@ -765,6 +786,7 @@ class SysSim(Engine):
                 os.makedirs(target)
                 with open(os.path.join(target, "unrelated.txt"), "w") as fh:
                     fh.write("keep me")
+                st.unrelated_dirs = getattr(st, "unrelated_dirs", set()) | {target}
             elif op.get("dir") == "nested":
                 target = os.path.join(st.tmp, f"out{n}", "deep", "er")
             else:
@@ -898,8 +920,11 @@ class SysSim(Engine):
 
         if kind in ("to_dict", "pickle"):
             if kind == "pickle":
-                with open(target, "rb") as fh:
-                    d = pickle.load(fh)
+                try:
+                    with open(target, "rb") as fh:
+                        d = pickle.load(fh)
+                except Exception as e:  # noqa
+                    bad(f"the pickle file cannot be loaded ({exc_class(e)})")
                 form = "numpy"
             else:
                 d = result
@@ -955,14 +980,15 @@ class SysSim(Engine):
                         expected[f"{to_valid_file_name(s['name'])}_outflow.csv"] = so.outflow
             if not os.path.isdir(target):
                 bad(f"export directory was not created")
-            have = sorted(x for x in os.listdir(target) if x != "unrelated.txt")
-            if have != sorted(expected):
-                bad(f"directory holds {have} instead of {sorted(expected)}")
+            have = set(x for x in os.listdir(target) if x != "unrelated.txt")
+            pre = getattr(st, "pre_listing", set())
+            if not set(expected) <= have or (have - pre) - set(expected):
+                bad(f"directory holds {sorted(have)} (before the export: {sorted(pre)}) instead of {sorted(expected)}")
             for fname, arr in expected.items():
                 if len(arr.dims) == 0:
                     continue
-                same_by_df(arr, pd.read_csv(os.path.join(target, fname)), f"file {fname}")
-            if op.get("dir") == "existing" and not os.path.exists(os.path.join(target, "unrelated.txt")):
+                same_by_df(arr, pd.read_csv(os.path.join(target, fname), dtype=str, keep_default_na=False), f"file {fname}")
+            if target in getattr(st, "unrelated_dirs", set()) and not os.path.exists(os.path.join(target, "unrelated.txt")):
                 bad("an unrelated file in the export directory disappeared")
             return
         if kind == "to_dfs":
